@@ -17,6 +17,8 @@ type Scenario struct {
 	Opts    Options
 	Body    func(x *Exec)
 	Outcome func(r *Result) string
+	// LeakIsViolation: see Explorer.
+	LeakIsViolation bool
 }
 
 type poolReq struct {
@@ -52,7 +54,7 @@ func ServePool(t *testing.T, scenarios []Scenario) {
 		if sc == nil {
 			t.Fatalf("unknown scenario %q", req.Scenario)
 		}
-		e := &Explorer{Opts: sc.Opts, Scenario: sc.Name, Body: sc.Body, Outcome: sc.Outcome, Stack: req.Items, Quota: req.Quota}
+		e := &Explorer{Opts: sc.Opts, Scenario: sc.Name, Body: sc.Body, Outcome: sc.Outcome, Stack: req.Items, Quota: req.Quota, LeakIsViolation: sc.LeakIsViolation}
 		if e.Stack == nil {
 			e.Stack = []Work{}
 		}
